@@ -180,12 +180,16 @@ def proof_check(pid, thorough):
             res["discharged"].append(n)
     if thorough:
         with Lock(".lake.lock"):
-            rc, out, dt = sh(["lake", "env", "leanchecker", f"CachedProofs.Properties.{pid}"], cwd=LEAN, timeout=3000)
+            # the property module, every module registered for the property and every CachedProofs module they import
+            checked = [f"CachedProofs.Properties.{pid}"] + [os.path.relpath(f, LEAN)[:-5].replace(os.sep, ".") for f in lemma_files]
+            rc, out, dt = sh(["lake", "env", "leanchecker"] + checked, cwd=LEAN, timeout=3000)
         res["wall"] += dt
-        res["leanchecker"] = "ok" if rc == 0 else out[-500:]
+        if "uncaught exception" in out or "Could not find" in out:
+            rc = rc or 1
+        res["leanchecker"] = f"ok ({len(checked)} modules)" if rc == 0 else out[-500:]
         if rc != 0:
             res["ok"] = False
-            res["problems"].append(f"leanchecker rejected CachedProofs.Properties.{pid}: {out[-300:]}")
+            res["problems"].append(f"leanchecker rejected one of {len(checked)} modules of {pid}: {out[-300:]}")
     return res
 
 
@@ -360,6 +364,7 @@ def main(argv):
         else:
             i += 1
     if tier not in ("quick", "thorough"):
+        print(f"unknown tier {tier!r}: running the quick tier", file=sys.stderr)
         tier = "quick"
     thorough = tier == "thorough"
     t_start = time.time()
@@ -387,10 +392,19 @@ def main(argv):
         violations.append({"kind": "correspondence", "signature": f"{pid}/harness-build", "what": "the harness no longer builds against /repo", "replay": rp, "no_input": True})
 
     if replay:
+        if violations or not proof["ok"]:
+            # a replay on a stale binary, or under proofs that no longer check, proves nothing: report what is broken
+            for v in violations:
+                print(f"VIOLATION property={pid} replay={v['replay']} [{v['kind']}] {v['what']} no-failing-input-found")
+            for prob in ([] if proof["ok"] else proof["problems"][:5]):
+                print(f"VIOLATION property={pid} replay={replay} [proof] {prob[:300]} no-failing-input-found")
+            return 1
         return do_replay(pid, replay, workdir)
 
     # ---- 2. correspondence + monitors
     all_cases = []
+    if ok_h and not os.path.exists(DRIVER):
+        violations.append({"kind": "correspondence", "signature": f"{pid}/driver-missing", "what": f"the Lean driver {DRIVER} was not built: no correspondence run is possible", "replay": DRIVER, "no_input": True})
     if ok_h and os.path.exists(DRIVER):
         jobs = []
         for (mode, profile, quick_n, thorough_n, extra) in plan.get("runs", []):
@@ -418,6 +432,8 @@ def main(argv):
         for cf in corpus_files:
             prefix = os.path.join(workdir, "corpus_" + os.path.basename(cf)[:-3])
             cases, rc = replay_lines(open(cf).read().splitlines(), prefix)
+            if rc not in (0, 3) or not cases:
+                violations.append({"kind": "correspondence", "signature": f"{pid}/corpus-replay-failed", "what": f"replaying the recorded history {os.path.basename(cf)} gave exit code {rc} and {len(cases)} case(s)", "replay": cf, "no_input": True})
             for c in cases:
                 c.origin = cf
                 # a recorded history may not be replayable to its end (the buffer index, the map iteration order and the
@@ -432,6 +448,7 @@ def main(argv):
             results = list(ex.map(run_shard, jobs))
         for prefix, rc, out in results:
             if not os.path.exists(prefix + ".in"):
+                violations.append({"kind": "correspondence", "signature": f"{pid}/harness-no-output", "what": f"a harness run wrote no input file {prefix}.in (exit code {rc}): {out[-300:]}", "replay": prefix + ".in", "no_input": True})
                 continue
             mp = prefix + ".model" if os.path.exists(prefix + ".model") else None
             cases = trace.load_cases(prefix + ".in", prefix + ".impl", mp)
@@ -440,6 +457,9 @@ def main(argv):
             all_cases += cases
             if rc not in (0, 3):
                 violations.append({"kind": "correspondence", "signature": f"{pid}/harness-crashed", "what": f"harness exited with {rc}: {out[-300:]}", "replay": prefix + ".in", "no_input": True})
+
+    if ok_h and plan.get("runs") and not all_cases and not any(v["signature"].endswith(("driver-missing", "harness-no-output")) for v in violations):
+        violations.append({"kind": "correspondence", "signature": f"{pid}/no-cases", "what": "the planned correspondence runs produced no case at all: nothing was compared", "replay": workdir, "no_input": True})
 
     seen_hashes = set()
     trig = TRIGGERS.get(pid)
